@@ -139,11 +139,9 @@ extern "C" void harness_enums() {
   { Decoder d(b); ChunkType e; RUN(out, { d.need(4); read(d, e); }); V_ASSERT(out == OK && (uint32_t)e == x); }
   V_ASSERT((uint32_t)ChunkType::Vertices == 0x54524556u && (uint32_t)ChunkType::Topo == 0x4f504f54u && (uint32_t)ChunkType::PropertyDirectory == 0x50524944u);
   V_ASSERT((uint32_t)ChunkType::Property == 0x504f5250u && (uint32_t)ChunkType::EndOfFile == 0x20464f45u);     // "VERT","TOPO","DIRP","PROP","EOF " as LE u32
-  if (x <= 6) {   // PropertyEntity <-> EntityType mapping is a bijection
-    PropertyEntity pe = (PropertyEntity)x;
-    V_ASSERT(as_prop_entity(as_entity_type(pe)) == pe);
-    v_witness("enums: valid property entity");
-  } else v_witness("enums: invalid value refused");
+  // PropertyEntity <-> EntityType mapping is a bijection on the 7 valid values (literal constants: the throwing default branches fold away)
+  for (unsigned k = 0; k <= 6; ++k) { PropertyEntity pe = (PropertyEntity)k; V_ASSERT(as_prop_entity(as_entity_type(pe)) == pe); }
+  if (x <= 6) v_witness("enums: byte value valid as property entity"); else v_witness("enums: byte value > 6");
 }
 
 // ---- suitable_int_encoding: smallest encoding that can represent the value; boundaries 255/256, 65535/65536
@@ -189,7 +187,7 @@ template <class Hd> static void handle_rt(int idx) {
 extern "C" void harness_handles() {
   int idx = v_nondet_int();
   handle_rt<VH>(idx); handle_rt<EH>(idx); handle_rt<HEH>(idx); handle_rt<FH>(idx); handle_rt<HFH>(idx); handle_rt<CH>(idx);
-  if (idx >= 0) v_witness("handles: valid handle round trip"); else v_witness("handles: negative index round trip");
+  v_witness("handles: round trip");
 }
 
 // ---- PropertyInfo: entity u8, name (u32 length + bytes), data_type_name (same), serialized_default (u32 length + bytes).
